@@ -40,10 +40,10 @@ type Line struct {
 	Self int            `json:"self"`
 	Args []any          `json:"args"`
 	P    bool           `json:"p"`
-	PC   string         `json:"pc"`   // panic class: "", library, runtime, timeout, other
-	PM   string         `json:"pm"`   // panic message (truncated), informational
-	R    map[string]any `json:"r"`    // tagged result
-	W    []any          `json:"w"`    // projected world after the call
+	PC   string         `json:"pc"` // panic class: "", library, runtime, timeout, other
+	PM   string         `json:"pm"` // panic message (truncated), informational
+	R    map[string]any `json:"r"`  // tagged result
+	W    []any          `json:"w"`  // projected world after the call
 	Why  string         `json:"why,omitempty"`
 }
 
